@@ -81,7 +81,12 @@ func cmdVerify(args []string) {
 	}
 	keys := fs.Args()
 	if len(keys) == 1 && keys[0] == "all" {
-		keys = sortedKeys(e.funcSpecs)
+		keys = nil
+		for _, k := range sortedKeys(e.funcSpecs) {
+			if sp := e.funcSpecs[k]; sp.IsFunctional() && !sp.Trusted && e.funcs[k] != nil {
+				keys = append(keys, k)
+			}
+		}
 	}
 	bad := 0
 	for _, k := range keys {
